@@ -112,4 +112,154 @@ def XOp.isTamper : XOp → Bool
   | .api op => op.isTamper
   | .crash op _ _ => op.isTamper
 
+/-! ## torn version files
+
+`_serialize_config_version` / `_serialize_job_status_version` are `open(f, "w")` (truncate) followed by `write()`.
+A process killed INSIDE such a write leaves the version file EMPTY.  `_get_config_version` /
+`_get_job_status_version` then die in `int('')` (ValueError) — at exactly the statement where a handle with an
+out-of-date copy gets the version-mismatch error (`current = self._get_…_version()` is immediately followed by
+the compare-and-raise).  So while a version file is empty, every operation behaves as if the acting handle's
+version DIFFERED from that file, except that the exception is ValueError.
+
+The state of `Model/Cluster.lean` (`Sys`, `Disk`) is unchanged: `TSys` adds one flag per version file.  While a
+flag is set the corresponding number in `Disk` is hidden (it is what the file said before it was truncated; no
+operation of the API can observe or change it, and the driver prints `null`).  `apiT` runs the unchanged `step`
+on a disk in which each empty version file is replaced by a number that differs from the acting process's
+version (`Op.mine`), puts the hidden number back, and turns the `versionMismatch` raised by the read of an empty
+file into `valueError`.  WHICH read raised follows the read order of the code:
+* `_serialize` only (`promote`, `load` with promotion, `demote`, `mark_complete`, `mark_canceled`): config version;
+* `_serialize_jobs` only (`complete_hpc_job_id`): job-status version;
+* `_check_versions` (`update_job_status`) and `_serialize`; `_serialize_jobs` (`prepare_for_resubmission`): config
+  version first, then — if that compare passed — the job-status version.  In `_check_versions` the read of the
+  job-status version file precedes the access `self._job_status.version`, so a handle WITHOUT a job status gets
+  ValueError there, not AttributeError.
+Operations that read no version file (load without promotion, a refused promotion, deserialize_jobs,
+are_all_jobs_complete, reading the status, in-memory mutations) are unaffected.  Only the environment
+(`forgeCfgVer` / `forgeJsVer`: somebody rewrites the file) ends the state; JADE code reads a version file before
+it writes it.
+-/
+
+/-- a system in which version files may be EMPTY -/
+structure TSys where
+  s : Sys
+  /-- `config_version.txt` is empty (`s.disk.cfgVer` is then the hidden number it held before) -/
+  cfgVerTorn : Bool
+  /-- `job_status_version.txt` is empty -/
+  jsVerTorn : Bool
+
+def TSys.ofSys (s : Sys) : TSys := { s := s, cfgVerTorn := false, jsVerTorn := false }
+
+/-- the versions (config, job status) the acting process holds in memory when it reads the version files: a fresh
+    handle (`load`) has just read `cluster_config.json`; an operation that needs the job-status version of a handle
+    that has no job status fails before it compares anything (the second component is then irrelevant) -/
+def Op.mine (s : Sys) (op : Op) : Nat × Nat :=
+  match op with
+  | .load .. => (s.disk.cfg.version, 0)
+  | _ =>
+    match op.actor with
+    | none => (0, 0)
+    | some h =>
+      match s.handles h with
+      | none => (0, 0)
+      | some x => (x.cfg.version, match x.js with | none => 0 | some j => j.version)
+
+/-- the operation reads `config_version.txt` (if it gets that far) -/
+def Op.readsCfgVer : Op → Bool
+  | .load _ _ p _ => p
+  | .promote _ => true
+  | .demote _ => true
+  | .update .. => true
+  | .markComplete _ => true
+  | .markCanceled _ => true
+  | .prepareResubmit .. => true
+  | _ => false
+
+/-- the operation reads `job_status_version.txt` (if it gets that far) -/
+def Op.readsJsVer : Op → Bool
+  | .update .. => true
+  | .completeHpcId .. => true
+  | .prepareResubmit .. => true
+  | _ => false
+
+/-- operations that read both version files: the compare of the config version, which comes first, raises -/
+def Op.cfgCompareFails (mine current : Nat) : Op → Bool
+  | .update .. => checkCfgMismatch mine current
+  | .prepareResubmit .. => cfgVersionMismatch mine current
+  | _ => false
+
+/-- each empty version file replaced by a number that differs from the acting process's version -/
+def maskDisk (t : TSys) (mine : Nat × Nat) : Disk :=
+  { t.s.disk with cfgVer := if t.cfgVerTorn then mine.1 + 1 else t.s.disk.cfgVer,
+                  jsVer := if t.jsVerTorn then mine.2 + 1 else t.s.disk.jsVer }
+
+/-- … and the hidden numbers put back -/
+def unmaskDisk (t : TSys) (d : Disk) : Disk :=
+  { d with cfgVer := if t.cfgVerTorn then t.s.disk.cfgVer else d.cfgVer,
+           jsVer := if t.jsVerTorn then t.s.disk.jsVer else d.jsVer }
+
+/-- the result is the exception of a version compare (for `_check_versions` without a job status: the AttributeError
+    of `self._job_status.version`, which the read of the version file precedes) -/
+def compareRaised (op : Op) : Res → Bool
+  | .err .versionMismatch => true
+  | .attrErr => (match op with | .update .. => true | _ => false)
+  | _ => false
+
+/-- the result of the run on the masked disk, with the exception of a read of an EMPTY file put in place -/
+def tornRes (t : TSys) (op : Op) (mine : Nat × Nat) (r : Res) : Res :=
+  if compareRaised op r &&
+      ((t.cfgVerTorn && op.readsCfgVer) ||
+       (t.jsVerTorn && op.readsJsVer && !(op.cfgCompareFails mine.1 t.s.disk.cfgVer))) then .err .valueError
+  else r
+
+/-- an API operation in a system whose version files may be empty -/
+def apiT (t : TSys) (op : Op) : TSys × Res :=
+  match op with
+  | .forgeCfgVer _ => ({ t with s := (step t.s op).1, cfgVerTorn := false }, (step t.s op).2)
+  | .forgeJsVer _ => ({ t with s := (step t.s op).1, jsVerTorn := false }, (step t.s op).2)
+  | _ =>
+    let r := step { t.s with disk := maskDisk t (op.mine t.s) } op
+    ({ t with s := { r.1 with disk := unmaskDisk t r.1.disk } }, tornRes t op (op.mine t.s) r.2)
+
+/-- The process performing `op` is killed at its `(k+1)`-th file write: right before it (`torn = false`, exactly
+    `crashStep`), or INSIDE it (`torn = true`): if that write is a version file, the file is left empty; if it is a data
+    file (`_serialize_file`: rename to backup / write / remove backup) the kill is the one right before the write.
+    The operation itself runs in the torn-aware way: if an empty version file makes it raise, it performs no write. -/
+def crashT (t : TSys) (op : Op) (k : Nat) (lockGone torn : Bool) : TSys × Option Res :=
+  let r := apiT t op
+  let ws := writesOf t.s.disk r.1.s.disk
+  if k < ws.length then
+    ({ s := { t.s with disk := { tornDisk t.s.disk r.1.s.disk k with marker := if op.takesLock then !lockGone else t.s.disk.marker },
+                       handles := dropHandle t.s.handles op.actor },
+       cfgVerTorn := t.cfgVerTorn || (torn && decide (ws[k]? = some FileId.cfgVer)),
+       jsVerTorn := t.jsVerTorn || (torn && decide (ws[k]? = some FileId.jsVer)) }, none)
+  else (r.1, some r.2)
+
+/-- API operations, kills between file writes, kills inside a file write -/
+inductive TOp where
+  | api (op : Op)
+  | crash (op : Op) (k : Nat) (lockGone torn : Bool)
+  deriving DecidableEq, Repr
+
+def TOp.ofX : XOp → TOp
+  | .api op => .api op
+  | .crash op k g => .crash op k g false
+
+def stepT (t : TSys) : TOp → TSys × Option Res
+  | .api op => ((apiT t op).1, some (apiT t op).2)
+  | .crash op k g torn => crashT t op k g torn
+
+def execT (t : TSys) (ops : List TOp) : TSys := ops.foldl (fun t op => (stepT t op).1) t
+
+/-- run a sequence, collecting the results (`none` = the process was killed) -/
+def runT (t : TSys) : List TOp → TSys × List (Option Res)
+  | [] => (t, [])
+  | op :: ops =>
+    let r := stepT t op
+    let rest := runT r.1 ops
+    (rest.1, r.2 :: rest.2)
+
+def TOp.isTamper : TOp → Bool
+  | .api op => op.isTamper
+  | .crash op _ _ _ => op.isTamper
+
 end Jade.Cluster
